@@ -211,41 +211,9 @@ func checkC03(c *ProgCase) *Outcome {
 	if fam != "" {
 		return skip(fam)
 	}
-	// the public two-step route: Expr.Parse once, then Expr.CompileExpr on that one tree - first
-	// against a sibling typing environment (verdict ignored), then against the real one. VM,
-	// closure compiler and AST interpreter must end like the Callables above.
-	first := r.Runs[0]
-	if first.O.Compiled() {
-		for _, be := range []run.Backend{run.VMSwitch, run.Closure, run.Interp} {
-			en := run.NewEngine(be, c.Extra)
-			var cl compiler.Closure
-			if p := run.Guard(func() {
-				parsed := en.E.Parse(r.Src)
-				_ = run.Guard(func() { en.E.CompileExpr(parsed, run.TypeEnv(siblingTypes(c.Env))) })
-				_ = run.Guard(func() { en.E.CompileExpr(parsed, run.TypeEnv(siblingKinds(c.Env))) })
-				cl = en.E.CompileExpr(parsed, run.TypeEnv(c.Env))
-			}); p != nil {
-				return bad("%s: Expr.Parse + Expr.CompileExpr (the tree compiled before against sibling types) fails: %s; Compile on the text succeeds\n src: %s\n env: %s", be, p.Text, clip(r.Src), envSummary(c))
-			}
-			o := &run.Outcome{Be: be}
-			en.Tr.Reset()
-			ve := en.ValEnvWithFuns(c.Vals)
-			o.RunPan = run.Guard(func() { o.Val = cl(ve) })
-			o.Trace = en.Tr.Snapshot()
-			b := &BackendRun{O: o}
-			if !o.Failed() {
-				b.Val, b.Probs = run.FromYaeVal(o.Val, r.RefType)
-			}
-			if o.Failed() != first.O.Failed() {
-				return bad("%s through Expr.Parse + Expr.CompileExpr (tree compiled before against sibling types): %s; through Compile: %s\n src: %s\n env: %s", be, describeOutcome(b), describeOutcome(first), clip(r.Src), envSummary(c))
-			}
-			if !o.Failed() && (len(b.Probs) > 0 || b.Val == nil || first.Val == nil || !m.Identical(first.Val, b.Val)) {
-				return bad("%s through Expr.Parse + Expr.CompileExpr (tree compiled before against sibling types) yields %s (%v); through Compile %s\n src: %s\n env: %s", be, renderVal(o.Val), b.Probs, first.Val.Render(), clip(r.Src), envSummary(c))
-			}
-			if !sameTrace(o.Trace, first.O.Trace) {
-				return bad("%s through Expr.Parse + Expr.CompileExpr invokes host functions differently: %s; through Compile: %s\n src: %s", be, traceStr(o.Trace), traceStr(first.O.Trace), clip(r.Src))
-			}
-		}
+	// the public two-step route: Expr.Parse once, then Expr.CompileExpr on that one tree
+	if o := twoStepRoute(c, r); o != nil {
+		return o
 	}
 	classes := vmSpecial(c, r)
 	if r.Runs[0].O.Failed() {
@@ -352,7 +320,7 @@ func eachStress(extraSizes []int) func(yield func(*StressCase) bool) {
 }
 
 func TestC03(t *testing.T) {
-	R.Rule = "well-typed programs (type-directed construction, with harness-registered strict / lazy / polymorphic functions, function-typed values called dynamically, poisoned operands) over generated conforming environments, run on VM/switch, VM/call-threaded, closure and interpreter: equal values (numbers bit-exact), all fail or none, identical host-function call traces; the same through Expr.Parse + Expr.CompileExpr on one tree compiled before against sibling types (VM, closure, interpreter); stress classes beyond 42 stack slots / 255 operands; non-trivial = uses a construct the VM treats specially (intrinsic opcode, conditional jump, thunk, nested thunk, dynamic call, literal with >1 member, duplicate map key, >255 constants)"
+	R.Rule = "well-typed programs (type-directed construction, with harness-registered strict / lazy / polymorphic functions, function-typed values called dynamically, poisoned operands) over generated conforming environments, run on VM/switch, VM/call-threaded, closure and interpreter: equal values (numbers bit-exact), all fail or none, identical host-function call traces; the same through Expr.Parse + Expr.CompileExpr on one tree compiled before and afterwards against sibling types (VM, closure, interpreter); stress classes beyond 42 stack slots / 255 operands; non-trivial = uses a construct the VM treats specially (intrinsic opcode, conditional jump, thunk, nested thunk, dynamic call, literal with >1 member, duplicate map key, >255 constants)"
 	R.Assume = []string{"differential oracle only; agreement of four wrong back ends is C04's subject"}
 	reportKnown(t, "C03")
 	runRegress(t, "C03")
@@ -457,3 +425,48 @@ func checkSrcDiff(c *SrcCase) *Outcome {
 }
 
 var c03src = Register(&Prop[SrcCase]{ID: "C03", Name: "source-strings", Gen: genSrcCase, Check: checkSrcDiff})
+
+// twoStepRoute: the public two-step route - Expr.Parse once, then Expr.CompileExpr on that one
+// tree: first against sibling typing environments (verdict ignored), then against the real one,
+// then against the siblings once more (a closure keeps meaning what it was compiled as when its
+// tree is compiled again). VM, closure compiler and AST interpreter must end like the Callable of
+// r.Runs[0], with a well-formed value of the inferred type.
+func twoStepRoute(c *ProgCase, r *CaseRun) *Outcome {
+	first := r.Runs[0]
+	if !first.O.Compiled() {
+		return nil
+	}
+	for _, be := range []run.Backend{run.VMSwitch, run.Closure, run.Interp} {
+		en := run.NewEngine(be, c.Extra)
+		var cl compiler.Closure
+		if p := run.Guard(func() {
+			parsed := en.E.Parse(r.Src)
+			_ = run.Guard(func() { en.E.CompileExpr(parsed, run.TypeEnv(siblingTypes(c.Env))) })
+			_ = run.Guard(func() { en.E.CompileExpr(parsed, run.TypeEnv(siblingKinds(c.Env))) })
+			cl = en.E.CompileExpr(parsed, run.TypeEnv(c.Env))
+			_ = run.Guard(func() { en.E.CompileExpr(parsed, run.TypeEnv(siblingTypes(c.Env))) })
+			_ = run.Guard(func() { en.E.CompileExpr(parsed, run.TypeEnv(siblingKinds(c.Env))) })
+		}); p != nil {
+			return bad("%s: Expr.Parse + Expr.CompileExpr (the tree compiled before against sibling types) fails: %s; Compile on the text succeeds\n src: %s\n env: %s", be, p.Text, clip(r.Src), envSummary(c))
+		}
+		o := &run.Outcome{Be: be}
+		en.Tr.Reset()
+		ve := en.ValEnvWithFuns(c.Vals)
+		o.RunPan = run.Guard(func() { o.Val = cl(ve) })
+		o.Trace = en.Tr.Snapshot()
+		b := &BackendRun{O: o}
+		if !o.Failed() {
+			b.Val, b.Probs = run.FromYaeVal(o.Val, r.RefType)
+		}
+		if o.Failed() != first.O.Failed() {
+			return bad("%s through Expr.Parse + Expr.CompileExpr (tree compiled before and afterwards against sibling types): %s; through Compile: %s\n src: %s\n env: %s", be, describeOutcome(b), describeOutcome(first), clip(r.Src), envSummary(c))
+		}
+		if !o.Failed() && (len(b.Probs) > 0 || b.Val == nil || first.Val == nil || !m.Identical(first.Val, b.Val)) {
+			return bad("%s through Expr.Parse + Expr.CompileExpr (tree compiled before and afterwards against sibling types) yields %s (%v); through Compile %s\n src: %s\n env: %s", be, renderVal(o.Val), b.Probs, first.Val.Render(), clip(r.Src), envSummary(c))
+		}
+		if !sameTrace(o.Trace, first.O.Trace) {
+			return bad("%s through Expr.Parse + Expr.CompileExpr invokes host functions differently: %s; through Compile: %s\n src: %s", be, traceStr(o.Trace), traceStr(first.O.Trace), clip(r.Src))
+		}
+	}
+	return nil
+}
